@@ -39,14 +39,14 @@ SHAPES_QUICK = {
     "coef": ["one", "two", "half", "pname", "pcomp"],
     "derived": ["none", "one", "chain-ooo", "ratedep"],
     "ia": [0, 1],
-    "ct": ["none", "cond", "time"],
+    "ct": ["none", "cond", "time", "rootsq"],
 }
 SHAPES_THOROUGH = {
     "nvars": [1, 2, 3],
     "coef": ["one", "two", "half", "neg", "pname", "pcomp"],
     "derived": ["none", "one", "chain", "chain-ooo", "ratedep"],
     "ia": [0, 1],
-    "ct": ["none", "cond", "condexpr", "time"],
+    "ct": ["none", "cond", "condexpr", "time", "rootsq"],
 }
 PATTERNS = [
     "own", "permuted-args", "repeated-arg-first", "repeated-arg-last", "same-name-first", "same-name-last",
